@@ -205,6 +205,11 @@ func runCheck(prop, tier string) int {
 					site := job.Name + "#" + ob.ID
 					if v, ok := seenSite[site]; ok {
 						v.Instances++
+						if v.Native == nil && ob.Model != nil {
+							// prefer an instance that carries a concrete witness
+							v.Ob = ob
+							v.Native = BuildNativeModel(job, p.Inputs, ob.Model)
+						}
 						continue
 					}
 					v := &violation{Job: job, Ob: ob, Site: site, Instances: 1}
@@ -246,6 +251,7 @@ func runCheck(prop, tier string) int {
 		}
 	}
 	spurious := 0
+	var spuriousSites []string
 	if len(cases) > 0 {
 		outs, err := RunNative(cases)
 		if err != nil {
@@ -267,6 +273,7 @@ func runCheck(prop, tier string) int {
 				}
 				if !v.Confirmed {
 					spurious++
+					spuriousSites = append(spuriousSites, v.Site)
 				}
 			}
 		}
@@ -283,6 +290,7 @@ func runCheck(prop, tier string) int {
 
 	// ---- verdict ----
 	known := loadKnown()
+	os.RemoveAll(verifDir + "/replays/" + prop)
 	os.MkdirAll(verifDir+"/replays/"+prop, 0755)
 	newViol := 0
 	var knownLines, violLines []string
@@ -441,6 +449,9 @@ func runCheck(prop, tier string) int {
 		for m, n := range abortMsgs {
 			fmt.Printf("  inconclusive x%d: %s\n", n, m)
 		}
+	}
+	if spurious > 0 {
+		fmt.Printf("  solver models not reproduced on the real build (not counted): %s\n", trunc(strings.Join(spuriousSites, ", "), 1500))
 	}
 	if truncated > 0 {
 		fmt.Printf("  truncated (time/path budget exhausted, remainder inconclusive): %s\n", trunc(strings.Join(truncNames, ", "), 600))
